@@ -14,15 +14,15 @@ TECHNIQUE = "runtime monitoring: type sanitizer on Message.time + invariant scan
 RULE = ("seeded integer-tick inputs driven through integer-argument histories: bar construction (bars shorter than their "
         "capacity), bar splitting of tracks of unequal length (placeholder/padded bars), Bar.to_sequence, "
         "Composition.from_sequences/to_sequences, tokenise/detokenise, and random chains of quantise, normalise, pad, split, "
-        "merge, concatenate, transpose, cutoff, integer scale, note-length quantisation; every assignment to Message.time is "
+        "merge, concatenate, transpose, cutoff, integer scale, note-length quantisation, and save -> (re-timed to another file resolution) -> load; every assignment to Message.time is "
         "type-checked by the sanitizer, every live Message is scanned after the history, every emitted token is scanned for "
         "'.'. Non-trivial: the history contains a padded bar or tracks of unequal length.")
-PLAN = {"quick": {"cases": 1500, "jobs": 4, "timeout": 600},
+PLAN = {"quick": {"cases": 1600, "jobs": 4, "timeout": 600},
         "thorough": {"cases": 80000, "jobs": 16, "timeout": 3000, "budget_s": 1500}}
-FLOORS = {"quick": {"time_type.int_assignments": 300000, "c11.padded_bar": 250, "c11.unequal_tracks": 400, "c11.tokenised": 300,
+FLOORS = {"quick": {"time_type.int_assignments": 300000, "c11.padded_bar": 200, "c11.loaded_files": 200, "c11.unequal_tracks": 400, "c11.tokenised": 300,
                     "c11.live_messages_scanned": 100000, "tokenise.integer_tokens.armed": 300},
           "thorough": {"time_type.int_assignments": 10000000, "c11.padded_bar": 20000}}
-SCEN = ["bars_tokens", "short_bar", "chain", "composition"]
+SCEN = ["bars_tokens", "short_bar", "chain", "composition", "save_load"]
 CHAIN = ["quantise", "normalise", "pad", "split", "merge", "concatenate", "transpose", "cutoff", "scale", "qnl", "qan", "set_channel",
          "split_bars", "copy"]
 _TOK = {}
@@ -46,6 +46,11 @@ def make_case(rng, i, tier):
         case.update({"num": num, "den": den, "seq": {"notes": notes, "extra": [], "start": rng.choice(["abs", "rel", "both"])},
                      "seq2": {"notes": gen.wf_notes(rng, 2, pitches=(64, 65), ons=[0, 12, 24], lens=[12, 24], tend=cap), "extra": []},
                      "flags": [rng.random() < 0.5 for _ in range(4)]})
+    elif scen == "save_load":
+        case["seqs"] = [{"notes": gen.wf_notes(rng, rng.randint(1, 6), pitches=(60, 62, 64), tmax=150, lmax=40, uniq_vel=False),
+                         "extra": gen.rand_extras(rng, rng.randint(0, 2), 150, kinds=("ts", "ks", "cc")) if j == 0 else [],
+                         "start": rng.choice(["abs", "rel"])} for j in range(rng.randint(1, 3))]
+        case["tpb"] = rng.choice([24, 24, 48, 96, 480, 100])
     else:
         case["pool"] = [{"notes": gen.wf_notes(rng, rng.randint(0, 5), chans=rng.choice([(0,), (0, 1)]), pitches=(60, 61, 62), tmax=100,
                                                lmax=40),
@@ -123,6 +128,32 @@ def run(case, ctx):
                 hold.append(tok.detokenise(t1))
             except (TokenisationException, KeyError, IndexError, ValueError) as e:
                 LOG.n(f"c11.observed.tokeniser_raises.{type(e).__name__}")
+        elif scen == "save_load":
+            import os
+            import mido
+            seqs = [gen.build_seq(sp) for sp in case["seqs"]]
+            path = os.path.join(ctx.scratch, f"c11_{os.getpid()}.mid")
+            try:
+                Sequence.sequences_save(seqs, path)
+                if case["tpb"] != 24:
+                    # same music at another file resolution (integer multiple or not): re-written with mido
+                    mf = mido.MidiFile(path)
+                    k = case["tpb"] / 24
+                    for trk in mf.tracks:
+                        for m in trk:
+                            m.time = int(round(m.time * k))
+                    mf.ticks_per_beat = case["tpb"]
+                    mf.save(path)
+                out = Sequence.sequences_load(path)
+                LOG.n("c11.loaded_files")
+            finally:
+                if os.path.exists(path):
+                    os.remove(path)
+            for o in out:
+                o.quantise_and_normalise()
+                o.abs
+                o.rel
+            hold += [seqs, out]
         else:
             pool = [gen.build_seq(sp) for sp in case["pool"]]
             hold.append(pool)
